@@ -150,6 +150,29 @@ fn is_ident(t: &str) -> bool {
     }
 }
 
+/// between a `const` keyword and the end of its expression (`;` or the closing `}`)
+fn in_const_expr(lx: &[(String, String)], i: usize) -> bool {
+    let mut depth = 0i32;
+    for k in (0..i).rev() {
+        match lx[k].1.as_str() {
+            "const" => return true,
+            ";" => return false,
+            "}" => depth += 1,
+            "{" => {
+                depth -= 1;
+                if depth < -1 {
+                    return false;
+                }
+            }
+            _ => {}
+        }
+        if i - k > 24 {
+            return false;
+        }
+    }
+    false
+}
+
 fn is_size_position(lx: &[(String, String)], i: usize) -> bool {
     let prev = if i > 0 { lx[i - 1].1.as_str() } else { "" };
     let next = lx.get(i + 1).map(|x| x.1.as_str()).unwrap_or("");
@@ -239,6 +262,9 @@ pub fn run(tier: Tier) -> i32 {
                 for s in &subst {
                     if BIG_NUMBERS.contains(s) && is_size_position(&lx, i) {
                         continue; // a 2^32-element array is legal and legitimately enormous
+                    }
+                    if *s == "-" && in_const_expr(&lx, i) {
+                        continue; // `const { 2 - 3 }` wraps to 2^32 - 1 elements: legal, enormous
                     }
                     let mut d = lx.clone();
                     d[i].1 = s.to_string();
@@ -408,7 +434,7 @@ pub fn run(tier: Tier) -> i32 {
         coverage: json!({
             "evaluations": evaluated.load(Ordering::Relaxed),
             "distinct_nontrivial": distinct_errors.lock().unwrap().len() as u64 + outcomes.len() as u64,
-            "rule": "corpus = repository example programs, error examples, documentation code blocks, generated programs of families S/D/P and a hand-written program using every syntactic form; for each: every token-boundary prefix, every character prefix (every 7th for long files), every single-token deletion, duplication, adjacent swap, every identifier token replaced by every other identifier of the same program, and substitution by each token of an alphabet of keywords / punctuation incl. comment delimiters / identifiers / boundary numbers (big numbers are not placed in array-size or range positions); all token strings of length <= L over a 37-token alphabet; every range pattern a{suffix}..b{suffix} / ..= over a 14-number boundary alphabet (0, 1, type minima/maxima and their neighbours) x suffix pairs x scrutinee types; all byte strings of length <= 2 over printable ASCII + NUL, 0x80, 0xff, multi-byte characters, CR/LF/TAB, alone and inside a program; the same perturbations of literal strings given to parse_arg; each case runs check + compile of every pub fn + prettify in an isolated worker with a deadline and an address-space limit; distinct_nontrivial = number of distinct (outcome class, perturbation kind) pairs observed",
+            "rule": "corpus = repository example programs, error examples, documentation code blocks, generated programs of families S/D/P and a hand-written program using every syntactic form; for each: every token-boundary prefix, every character prefix (every 7th for long files), every single-token deletion, duplication, adjacent swap, every identifier token replaced by every other identifier of the same program, and substitution by each token of an alphabet of keywords / punctuation incl. comment delimiters / identifiers / boundary numbers (big numbers are not placed in array-size, range or constant-expression positions, and `-` is not substituted inside a constant expression, where wrapping subtraction yields a legal but enormous array); all token strings of length <= L over a 37-token alphabet; every range pattern a{suffix}..b{suffix} / ..= over a 14-number boundary alphabet (0, 1, type minima/maxima and their neighbours) x suffix pairs x scrutinee types; all byte strings of length <= 2 over printable ASCII + NUL, 0x80, 0xff, multi-byte characters, CR/LF/TAB, alone and inside a program; the same perturbations of literal strings given to parse_arg; each case runs check + compile of every pub fn + prettify in an isolated worker with a deadline and an address-space limit; distinct_nontrivial = number of distinct (outcome class, perturbation kind) pairs observed",
             "samples": [
                 {"kind": cases[1].kind, "origin": cases[1].origin, "text": String::from_utf8_lossy(&cases[1].text)},
                 {"kind": cases[n_frontend / 2].kind, "origin": cases[n_frontend / 2].origin, "text": String::from_utf8_lossy(&cases[n_frontend / 2].text)},
